@@ -1048,6 +1048,7 @@ fn explore(args: &[String]) -> i32 {
     let threads: usize = arg_value(args, "--threads").map(|s| s.parse().unwrap()).unwrap_or(16);
     let announce = arg_value(args, "--announce");
     let max_secs: u64 = arg_value(args, "--max-secs").map(|s| s.parse().unwrap()).unwrap_or(u64::MAX);
+    let max_states: usize = arg_value(args, "--max-states").map(|s| s.parse().unwrap()).unwrap_or(usize::MAX);
     let t0 = Instant::now();
     let mut seen: HashSet<u128> = HashSet::new();
     seen.insert(Model::default().key());
@@ -1062,7 +1063,7 @@ fn explore(args: &[String]) -> i32 {
     let mut capped = false;
     let mut cmds_seen: HashSet<String> = HashSet::new();
     while !frontier.is_empty() {
-        if t0.elapsed().as_secs() >= max_secs {
+        if t0.elapsed().as_secs() >= max_secs || states >= max_states {
             capped = true;
             break;
         }
@@ -1141,7 +1142,7 @@ fn explore(args: &[String]) -> i32 {
     }
     let mut j = String::from("{\n");
     j.push_str(&format!(" \"bounds\": \"allocations<={} outside strong handles per allocation<={} Weak per allocation<={} stored handles<={}\",\n", b.allocs, b.x, b.w, b.stored));
-    j.push_str(&format!(" \"states\": {states},\n \"programs\": {transitions},\n \"depth_completed\": {depth},\n \"exhaustive\": {},\n", !capped));
+    j.push_str(&format!(" \"states\": {states},\n \"programs\": {transitions},\n \"depth_completed\": {depth},\n \"exhaustive\": {},\n \"unexpanded_states_when_capped\": {},\n", !capped, frontier.len()));
     j.push_str(&format!(" \"level_sizes\": [{}],\n", levels.iter().map(|x| x.to_string()).collect::<Vec<_>>().join(",")));
     j.push_str(&format!(" \"api_commands_exercised\": {},\n", cmds_seen.len()));
     j.push_str(&format!(" \"wall_s\": {:.2},\n", t0.elapsed().as_secs_f64()));
